@@ -137,7 +137,7 @@ static void d_apply(int op, CdnsBlock& b, DState& s, const Pools& P) {
     case D_SIG_EMPTY: s.sig = b.add_qr_signature(QueryResponseSignature()); break;
     case D_SIG_PORT: { QueryResponseSignature g; g.server_port = 53; s.sig = b.add_qr_signature(g); break; }
     case D_SIG_FULL: { QueryResponseSignature g; g.server_address_index = s.ip; g.server_port = 853; g.qr_transport_flags = (QueryResponseTransportFlagsMask)2; g.qr_type = QueryResponseTypeValues::auth; g.qr_sig_flags = (QueryResponseFlagsMask)3; g.query_opcode = 0;
-        g.qr_dns_flags = (DNSFlagsMask)0x7fff; g.query_rcode = 0; g.query_classtype_index = s.ct; g.query_qdcount = 1; g.query_ancount = 70000; g.query_nscount = 0; g.query_arcount = 0; g.query_edns_version = 0; g.query_udp_size = 4096; g.query_opt_rdata_index = s.name; g.response_rcode = 0; s.sig = b.add_qr_signature(g); break; }
+        g.qr_dns_flags = (DNSFlagsMask)0x7fff; g.query_rcode = 0; g.query_classtype_index = s.ct; g.query_qdcount = 1; g.query_ancount = 65535; g.query_nscount = 0; g.query_arcount = 0; g.query_edns_version = 0; g.query_udp_size = 4096; g.query_opt_rdata_index = s.name; g.response_rcode = 0; s.sig = b.add_qr_signature(g); break; }
     case D_QLIST_EMPTY: s.qlist = b.add_question_list({}); break; case D_QLIST_Q0: s.qlist = b.add_question_list({(index_t)s.q}); break;
     case D_RRLIST_EMPTY: s.rrlist = b.add_rr_list({}); break; case D_RRLIST_R0: s.rrlist = b.add_rr_list({(index_t)s.r, (index_t)s.r}); break;
     case D_QUESTION: { Question q; q.name_index = s.name; q.classtype_index = s.ct; s.q = b.add_question(q); break; }
